@@ -500,6 +500,7 @@ var histContainers = []contSpec{
 	{Kind: "parray", T: "*[3]int"}, {Kind: "parray", T: "*[4]int"}, {Kind: "parray", T: "*[3]int8"}, {Kind: "parray", T: "*[3]string"}, {Kind: "parray", T: "*[3]float32"},
 	{Kind: "varray", T: "[3]int"},
 	{Kind: "pstruct", T: "TwinA"}, {Kind: "pstruct", T: "TwinB"}, {Kind: "vstruct", T: "TwinA"},
+	{Kind: "pstruct", T: "Outer"}, {Kind: "pstruct", T: "Outer"},
 	{Kind: "field", T: "Holder", Field: "Items"}, {Kind: "field", T: "Holder", Field: "Items"}, {Kind: "field", T: "Holder", Field: "Names"},
 	{Kind: "field", T: "Holder", Field: "Arr"}, {Kind: "field", T: "Holder", Field: "Tab"},
 }
@@ -571,9 +572,37 @@ func genHist(t *rapid.T) histCase {
 			if base.NumMethod() == 0 && reflect.PointerTo(base).NumMethod() == 0 {
 				w["call"] = 2
 			}
+			var innerNames []string // struct-typed fields: live Go memory a *Inner parameter can point at
+			for fi := 0; fi < base.NumField(); fi++ {
+				if f := base.Field(fi); f.Type == reflect.TypeOf(m16.Inner{}) {
+					innerNames = append(innerNames, f.Name)
+					if tag := f.Tag.Get("json"); tag != "" && tag != "-" {
+						innerNames = append(innerNames, tag)
+					}
+				}
+			}
+			if len(innerNames) > 0 && c.Kind == "pstruct" {
+				w["bump"], w["viaptr"] = 14, 8
+			}
 			s.Op = pick("sop", w)
 			switch s.Op {
+			case "bump":
+				s.Key = rapid.SampledFrom(innerNames).Draw(t, "bumpField")
+				v := genFor(t, reflect.TypeOf(0), 0)
+				if rapid.IntRange(0, 3).Draw(t, "plainK") > 0 {
+					v = m16.JNum(float64(rapid.IntRange(-50, 50).Draw(t, "k")), "lit")
+				}
+				s.Val = &v
+			case "viaptr":
+				g := genGoValue(t, reflect.TypeOf(0), 0)
+				s.Go = &g
 			case "set":
+				if _, hasPI := base.FieldByName("PI"); hasPI && rapid.IntRange(0, 3).Draw(t, "aliasPI") == 0 {
+					s.Key = "PI"
+					v := m16.JSp("self:" + rapid.SampledFrom([]string{"In", "in"}).Draw(t, "aliasSrc"))
+					s.Val = &v
+					break
+				}
 				s.Key = rapid.SampledFrom(append(structNames(base), "hid", "zzz", "Skip")).Draw(t, "skey")
 				if idx := m16.ResolveField(base, s.Key); idx != nil {
 					s.Val = genStepVal(t, m16.FieldType(base, idx))
